@@ -60,6 +60,12 @@ func (p *Poller) Next() GenericDataType {
 		data, ok := p.Diode.TryNext()
 		if !ok {
 			if p.isDone() {
+				// The context may have been cancelled after the TryNext
+				// above failed: data set before the cancellation must
+				// still be drained.
+				if data, ok := p.Diode.TryNext(); ok {
+					return data
+				}
 				return nil
 			}
 
